@@ -49,6 +49,11 @@ def lin(v):
         a, b = lin(v[2]), lin(v[3])
         return a.add(b) if a is not None and b is not None else None
     if v[0] == 'bin' and v[1] == 'sub':
+        # difference of two positions in the same object
+        b1, o1 = split_ptr(v[2])
+        b2, o2 = split_ptr(v[3])
+        if b1 == b2 and o1 is not None and o2 is not None and (v[2][0] in ('idx',) or v[3][0] in ('idx',)):
+            return o1.add(o2, -1)
         a, b = lin(v[2]), lin(v[3])
         return a.add(b, -1) if a is not None and b is not None else None
     if v[0] == 'bin' and v[1] == 'mul' and (sym.is_const(v[2]) or sym.is_const(v[3])):
@@ -204,3 +209,40 @@ def analyse(path):
             if not b.terminated:
                 b.problems.append((e, 'is returned without a terminating NUL'))
     return list(bufs.values())
+
+
+def buffer_pieces(path, buf):
+    """the sources written into the string buffer `buf` on this path, in the order they end up in it:
+    [('src', value) | ('lit', text)] - strcpy/strcat/memcpy/strncpy pieces and the pieces of an snprintf() format.
+    None if a write cannot be expressed this way."""
+    from . import outmodel
+    out = []
+    for e in path.events:
+        if e.kind != 'call' or e.inlined:
+            continue
+        n = e.name
+        if n in ('strcpy', 'strcat', 'strncpy', 'memcpy', 'llvm.memcpy.p0i8.p0i8.i64', 'memmove', 'llvm.memmove.p0i8.p0i8.i64'):
+            base, off = split_ptr(e.args[0])
+            if base != buf:
+                continue
+            if n == 'strcpy' or (n != 'strcat' and off is not None and off.eq(Lin(0))):
+                out = []
+            out.append(('src', e.args[1]))
+        elif n in ('snprintf', 'sprintf'):
+            base, off = split_ptr(e.args[0])
+            if base != buf:
+                continue
+            fa = 2 if n == 'snprintf' else 1
+            toks = outmodel.tokens_of_call('fprintf', [None] + list(e.args[fa:]), e)
+            if toks is None:
+                return None
+            if off is not None and off.eq(Lin(0)):
+                out = []
+            for t in toks:
+                if t[0] == 'lit':
+                    out.append(('lit', t[1]))
+                elif t[0] == 'arg' and t[1] == '%s':
+                    out.append(('src', t[2]))
+                else:
+                    return None
+    return out
